@@ -34,11 +34,29 @@ def scenarios(r, p):
             cur["metadata"].pop("ownerReferences", None)
         return cur
 
+    def deco_co_owned(cur):
+        """another actor adds its own owner reference next to the parent's (before / after / both)"""
+        cur = deco(cur)
+        if cur is not None and isinstance(cur.get("metadata"), dict):
+            refs = cur["metadata"].get("ownerReferences")
+            if isinstance(refs, list):
+                refs = [x for x in refs if not str(x.get("uid", "")).startswith("uid-foreign")]
+                other = lambda i: {"apiVersion": "v1", "kind": "Other", "name": f"o{i}", "uid": f"uid-foreign-{i}"}
+                where = r.choice(["before", "after", "both"])
+                if where in ("before", "both"):
+                    refs = [other(1)] + refs
+                if where in ("after", "both"):
+                    refs = refs + [other(2)]
+                cur["metadata"]["ownerReferences"] = refs
+        return cur
+
     c = r.random()
-    if c < 0.7:
+    if c < 0.5:
         return None, [None, deco, deco]
-    if c < 0.85:
+    if c < 0.6:
         return None, [None, None, deco]
+    if c < 0.9:
+        return None, [None, deco_co_owned, deco_co_owned, None]
     return None, [None, deco_drop_owner, None]
 
 
